@@ -97,7 +97,11 @@ class RecLearner:
 
     def _prob(self, e):
         p = e.get("p")
-        return None if p is None else p[0] / p[1]
+        if p is None:
+            return None
+        if e.get("pint") and p[0] % p[1] == 0:
+            return p[0] // p[1]          # an int probability (0 or 1), as a deterministic policy would report it
+        return p[0] / p[1]
 
     def _kw(self, e):
         return {k: e["kw"][k] for k in self.kw_keys}
